@@ -24,6 +24,7 @@ import (
 	"strconv"
 	"strings"
 	"sync"
+	"time"
 
 	"github.com/parquet-go/parquet-go"
 
@@ -1294,7 +1295,9 @@ func c08L2(ctx *core.Ctx, f *c08File, sp c08Spec, ops []c08Op, tr *c08Trace, req
 	fail := func(i int, what string) {
 		ctx.Fail("L2", "filepages-mirror "+what, "FilePages and the Lean mirror (seek.run) disagree: "+what, map[string]any{
 			"file": f.desc, "view": sp.String(), "ops": c08OpsString(ops), "op_index": i, "request": req, "model": ans,
-			"impl_outs": strings.Join(tr.outs, " "), "impl_states": strings.Join(tr.states, " ")})
+			"impl_outs": strings.Join(tr.outs, " "), "impl_states": strings.Join(tr.states, " "),
+			"page_offsets": f.offsets[sp.RG][sp.Col], "page_sizes": f.psize[sp.RG][sp.Col], "chunk": []int64{f.chunkLo[sp.RG][sp.Col], f.chunkHi[sp.RG][sp.Col]},
+			"file_sha256": hashHex(f.data), "file_hex": c08HexIfSmall(f.data)})
 	}
 	if !strings.HasPrefix(ans, "ok") {
 		fail(-1, "model-refused-request")
@@ -1465,7 +1468,11 @@ func c08Corrupt(f *c08File, r *rand.Rand, rg, col, page int) *c08File {
 	}
 	g := *f
 	g.data = append([]byte{}, f.data...)
-	g.data[off+size-1-int64(r.Intn(2))] ^= 1 << uint(r.Intn(8))
+	// the last byte of the page is always a body byte; the one before it is the STOP byte of the page
+	// header when the body is one byte long (a flipped header is outside the property: the header
+	// decoder then runs on into the next page)
+	_ = r.Intn(2)
+	g.data[off+size-1] ^= 1 << uint(r.Intn(8))
 	b := f.bounds[rg][col]
 	hi := f.rgStart[rg+1]
 	if page+1 < len(b) {
@@ -2033,6 +2040,13 @@ func c08LayerRequest(f *c08File, sp c08Spec, ops []c08Op) string {
 	return fmt.Sprintf("rows.run %s %d %s", strings.Join(cols, ";"), idx, sb.String())
 }
 
+func c08HexIfSmall(b []byte) string {
+	if len(b) > 400000 {
+		return ""
+	}
+	return hex.EncodeToString(b)
+}
+
 func hashHex(b []byte) string {
 	h := sha256.Sum256(b)
 	return hex.EncodeToString(h[:8])
@@ -2073,6 +2087,8 @@ var c08CorruptRegressions = []struct{ name, ops string }{
 	{"seek back after a failed read, then forward again", "s5 r1 r1 s3 r1 s15 r1 s20 r1"},
 	{"failed read, seek to the next page", "s10 r1 s20 r1 r1"},
 }
+
+var c08T0 = time.Now()
 
 func RunC08(ctx *core.Ctx) {
 	ctx.SetRule("files of catalogue struct types (nested/repeated/optional columns, random rows) under random writer configurations (page version, codec, page buffers from 1 byte = one page per row, several row groups) x open options (page index loaded or skipped, sync/async, read buffer 1..4096) x reader kind (FilePages, value reader, row group rows, Reader.ReadRows/Read, GenericReader, MultiRowGroup rows/pages/values, row range views, buffers) x random histories of up to 200 SeekToRow/read/lazy-index-load ops aimed at the cached page, page boundaries +-1 and the end; distinct by file+view+history; non-trivial = the history seeks backward at least once on a file of >= 2 rows")
@@ -2219,9 +2235,13 @@ func RunC08(ctx *core.Ctx) {
 		}
 		w.flush()
 	}
+	if os.Getenv("VERIF_C08_TIMING") != "" {
+		fmt.Fprintf(os.Stderr, "c08: fixed part done %v\n", time.Since(c08T0))
+	}
 	// 2. random files x views x histories
-	filesPerType := ctx.Scale(6, 150)
-	histsPerView := ctx.Scale(2, 4)
+	// thorough = 9x the random part of quick (the random part of quick is ~35 s wall on a busy box)
+	filesPerType := ctx.Scale(6, 36)
+	histsPerView := ctx.Scale(2, 3)
 	var wg sync.WaitGroup
 	sem := make(chan struct{}, 16)
 	for _, e := range gen.Catalog {
@@ -2289,4 +2309,7 @@ func RunC08(ctx *core.Ctx) {
 		}(e)
 	}
 	wg.Wait()
+	if os.Getenv("VERIF_C08_TIMING") != "" {
+		fmt.Fprintf(os.Stderr, "c08: random part done %v\n", time.Since(c08T0))
+	}
 }
